@@ -177,6 +177,91 @@ Proof.
   - destruct (Nat.ltb_spec hi lo); [reflexivity|lia].
 Qed.
 
+Definition mk_alt_ (pc ix : nat) (sl aux : list val) : alt := {| a_pc := pc; a_ix := ix; a_slots := sl; a_aux := aux |}.
+
+Lemma nth_error_lt {A} (l : list A) k x : nth_error l k = Some x -> k < length l.
+Proof. intros H. apply nth_error_Some. congruence. Qed.
+
+Lemma step_repeat_gr pc ix sl aux K lo hi next rep c : at_ pc (IRepeatGr lo hi next rep) ->
+  nth_error sl rep = Some (V c) ->
+  mstep (Run pc ix sl aux K) =
+  if N.eqb (N.of_nat c) hi then Run next ix sl aux K else
+  let sl1 := upd sl rep (V (c + 1)) in
+  if N.leb lo (N.of_nat c) then Run (S pc) ix sl1 aux (mk_alt_ next ix sl1 aux :: K)
+  else Run (S pc) ix sl1 aux K.
+Proof.
+  intros H E. unfold mstep. rewrite H. cbn [gexec_insn]. red1u. unfold r_get, mkr at 1. cbn [r_slots]. rewrite E.
+  destruct (N.eqb (N.of_nat c) hi); [reflexivity|]. unfold save_or_panic. red1u.
+  rewrite r_save_ok by (eapply nth_error_lt; eauto).
+  destruct (N.leb lo (N.of_nat c)); reflexivity.
+Qed.
+
+Lemma step_repeat_ng pc ix sl aux K lo hi next rep c : at_ pc (IRepeatNg lo hi next rep) ->
+  nth_error sl rep = Some (V c) ->
+  mstep (Run pc ix sl aux K) =
+  if N.eqb (N.of_nat c) hi then Run next ix sl aux K else
+  let sl1 := upd sl rep (V (c + 1)) in
+  if N.leb lo (N.of_nat c) then Run next ix sl1 aux (mk_alt_ (S pc) ix sl1 aux :: K)
+  else Run (S pc) ix sl1 aux K.
+Proof.
+  intros H E. unfold mstep. rewrite H. cbn [gexec_insn]. red1u. unfold r_get, mkr at 1. cbn [r_slots]. rewrite E.
+  destruct (N.eqb (N.of_nat c) hi); [reflexivity|]. unfold save_or_panic. red1u.
+  rewrite r_save_ok by (eapply nth_error_lt; eauto).
+  destruct (N.leb lo (N.of_nat c)); reflexivity.
+Qed.
+
+Lemma step_repeat_eps_gr pc ix sl aux K lo next rep chk c ck : at_ pc (IRepeatEpsilonGr lo next rep chk) ->
+  nth_error sl rep = Some (V c) -> nth_error sl chk = Some ck ->
+  mstep (Run pc ix sl aux K) =
+  if N.ltb lo (N.of_nat c) && val_eqb ck (V ix) then Fail K else
+  let sl1 := upd sl rep (V (c + 1)) in
+  if N.leb lo (N.of_nat c) then
+    let sl2 := upd sl1 chk (V ix) in Run (S pc) ix sl2 aux (mk_alt_ next ix sl2 aux :: K)
+  else Run (S pc) ix sl1 aux K.
+Proof.
+  intros H E E2. unfold mstep. rewrite H. cbn [gexec_insn]. red1u. unfold r_get, mkr at 1 2. cbn [r_slots]. rewrite E, E2.
+  destruct (N.ltb lo (N.of_nat c) && val_eqb ck (V ix)); [reflexivity|]. unfold save_or_panic. red1u.
+  rewrite r_save_ok by (eapply nth_error_lt; eauto).
+  destruct (N.leb lo (N.of_nat c)); [|reflexivity].
+  rewrite r_save_ok by (rewrite upd_length; eapply nth_error_lt; eauto). reflexivity.
+Qed.
+
+Lemma step_repeat_eps_ng pc ix sl aux K lo next rep chk c ck : at_ pc (IRepeatEpsilonNg lo next rep chk) ->
+  nth_error sl rep = Some (V c) -> nth_error sl chk = Some ck ->
+  mstep (Run pc ix sl aux K) =
+  if N.ltb lo (N.of_nat c) && val_eqb ck (V ix) then Fail K else
+  let sl1 := upd sl rep (V (c + 1)) in
+  if N.leb lo (N.of_nat c) then
+    let sl2 := upd sl1 chk (V ix) in Run next ix sl2 aux (mk_alt_ (S pc) ix sl2 aux :: K)
+  else Run (S pc) ix sl1 aux K.
+Proof.
+  intros H E E2. unfold mstep. rewrite H. cbn [gexec_insn]. red1u. unfold r_get, mkr at 1 2. cbn [r_slots]. rewrite E, E2.
+  destruct (N.ltb lo (N.of_nat c) && val_eqb ck (V ix)); [reflexivity|]. unfold save_or_panic. red1u.
+  rewrite r_save_ok by (eapply nth_error_lt; eauto).
+  destruct (N.leb lo (N.of_nat c)); [|reflexivity].
+  rewrite r_save_ok by (rewrite upd_length; eapply nth_error_lt; eauto). reflexivity.
+Qed.
+
+(* FailNegativeLookAround pops down to and including the frame whose pc is pc + 1 *)
+Lemma fnla_pops target : forall F fuel sl aux a K, length F < fuel ->
+  Forall (fun b => a_pc b <> target) F -> a_pc a = target ->
+  fnla rstate iface1u fuel (mkr sl aux (F ++ a :: K)) target = Some (mkr (a_slots a) (a_aux a) K).
+Proof.
+  induction F as [|b F IH]; intros fuel sl aux a K Hf HF Ha; (destruct fuel as [|fuel]; [cbn [length] in Hf; lia|]).
+  - cbn [fnla app]. red1u. unfold r_pop, mkr. cbn [rexec r_alts r_max]. rewrite Ha, Nat.eqb_refl. reflexivity.
+  - cbn [fnla app]. red1u. unfold r_pop, mkr at 1. cbn [rexec r_alts r_max].
+    apply Forall_cons_iff in HF as [Hb HF]. destruct (Nat.eqb_spec (a_pc b) target); [contradiction|].
+    apply (IH fuel (a_slots b) (a_aux b)); auto. cbn [length] in Hf. lia.
+Qed.
+
+Lemma step_fnla pc ix sl aux F a K : at_ pc IFailNegativeLookAround ->
+  Forall (fun b => a_pc b <> S pc) F -> a_pc a = S pc ->
+  mstep (Run pc ix sl aux (F ++ a :: K)) = Fail K.
+Proof.
+  intros H HF Ha. unfold mstep. rewrite H. cbn [gexec_insn]. red1u. unfold r_count. cbn [mkr r_alts].
+  rewrite (fnla_pops (S pc) F _ sl aux a K); auto. rewrite app_length. cbn [length]. lia.
+Qed.
+
 (* ---------- the generator judgement ---------- *)
 
 Record vst := { v_ix : nat; v_sl : list val; v_aux : list val }.
